@@ -499,6 +499,26 @@ func c05FailParks(c *Ctx, m *Module) {
 					detail = "not in the deferred clean-up"
 				}
 			}
+			if ok && (top == "(*internal/counter.mappedFile).extend" || top == "internal/counter.openMapped") {
+				// only the mapping this very function made may be unmapped here — never the
+				// receiver, which is the mapping the process's counters point into
+				recv := strip(argsOf(cs)[0])
+				mine := false
+				if e, isE := recv.(*ssa.Extract); isE && e.Index == 0 {
+					if cl, isC := e.Tuple.(*ssa.Call); isC && calleeName(&cl.Call) == "internal/counter.openMapped" {
+						mine = true
+					}
+				}
+				if a, isA := deref(recv).(*ssa.Alloc); isA && fnameTop(a.Parent()) == top {
+					mine = true // the mappedFile being built
+				}
+				if a, isA := recv.(*ssa.Alloc); isA && fnameTop(a.Parent()) == top {
+					mine = true
+				}
+				if !mine {
+					ok, detail = false, "unmaps "+shortDesc(describe(recv))+", which this function did not map"
+				}
+			}
 			r.Check("C05.fail-parks", "unmap site in "+fname(cs.Parent()), m.Pos(cs.Pos()), ok,
 				"(*mappedFile).close may be called only where no counter can still point into the mapping: "+detail)
 		}
